@@ -1027,6 +1027,22 @@ def c10_programs(backend):
         prog(f"Select(EventDataset('ds'), lambda e: e.PRIM('A').Select(lambda j: j.{name}().Count()))", [(E, ms)], tags=(name, "count"))
         prog(f"Select(EventDataset('ds'), lambda e: e.PRIM('A').Select(lambda j: j.{name}().Select(lambda v: {el})))", [(E, ms)], tags=(name, "select"))
         prog(f"Select(EventDataset('ds'), lambda e: e.PRIM('A').Where(lambda j: j.{name}().Count() > 1).Select(lambda j: j.{name}()[1]{'' if num else '.x()'}))", [(E, ms)], tags=(name, "index"))
+    # a metadata declaration of a method the backend pre-declares (its default types) replaces the default
+    if backend == "atlas":
+        for p_ in (0, 1, 2):
+            prog("Select(EventDataset('ds'), lambda e: e.TruthParticles('A').Select(lambda p: p.parent().x()))",
+                 [("xAOD::TruthParticle", MethodSpec("parent", TObj(T, p_)))], tags=("redeclare-default", f"p{p_}"))
+        prog("Select(EventDataset('ds'), lambda e: e.TruthParticles('A').Select(lambda p: p.prodVtx() / 2))",
+             [("xAOD::TruthParticle", MethodSpec("prodVtx", TNum("int")))], tags=("redeclare-default", "int"))
+        prog("Select(EventDataset('ds'), lambda e: e.TruthParticles('A').Select(lambda p: p.child()))",
+             [("xAOD::TruthParticle", MethodSpec("child", TNum("int")))], tags=("redeclare-default", "int-column"))
+    else:
+        for mname, t in (("isPFMuon", TNum("int")), ("isPFIsolationValid", TNum("double")), ("globalTrack", TNum("int"))):
+            prog(f"Select(EventDataset('ds'), lambda e: e.PRIM('A').Select(lambda j: j.{mname}()))", [(E, MethodSpec(mname, t))], tags=("redeclare-default", mname))
+            prog(f"Select(EventDataset('ds'), lambda e: e.PRIM('A').Select(lambda j: j.{mname}() / 2))", [(E, MethodSpec(mname, t))], tags=("redeclare-default", mname, "div"))
+        for p_ in (0, 1):
+            prog("Select(EventDataset('ds'), lambda e: e.PRIM('A').Select(lambda j: j.pfIsolationR04().x() + j.globalTrack().k()))",
+                 [(E, MethodSpec("pfIsolationR04", TObj(T, p_))), (E, MethodSpec("globalTrack", TObj(T, 1 - p_))), (T, MethodSpec("k", TNum("int")))], tags=("redeclare-default", f"p{p_}"))
     # two enums in sibling namespaces with a common prefix and equal value names
     en2 = {"xAOD.Jet.Color": ("xAOD.Jet", ["Red", "Blue"]), "xAOD.Track.Color": ("xAOD.Track", ["Red", "Green"])}
     prog("Select(EventDataset('ds'), lambda e: e.PRIM('A').Select(lambda j: j.weight(xAOD.Jet.Color.Red) + j.weight(xAOD.Track.Color.Red)))", [], enums=en2, tags=("enum", "siblings"))
@@ -1283,6 +1299,7 @@ def c11_programs(backend):
         ("Select(EventDataset('ds'), lambda e: e.PRIM('A').Select(lambda j: inti(j.nTrk())))", [intfn]),
         ("Select(EventDataset('ds'), lambda e: e.PRIM('A').Select(lambda j: j.scaled(2)))", [meth]),
         ("Select(EventDataset('ds'), lambda e: e.PRIM('A').Select(lambda j: j.scaled(j.eta()) + twice(1)))", [meth, twice]),
+        ("Select(EventDataset('ds'), lambda e: e.PRIM('A').Select(lambda j: j.scaled(twice(j.s())) + j.scaled(j.pt())))", [meth, twice]),   # a method named like the formal in the actual
         ("Select(EventDataset('ds'), lambda e: e.PRIM('A').Select(lambda j: pair(j.pt())))", [pair]),
         ("Select(EventDataset('ds'), lambda e: e.PRIM('A').Select(lambda j: pair(j.pt()).Sum()))", [pair]),
         ("Select(EventDataset('ds'), lambda e: e.PRIM('A').SelectMany(lambda j: pair(j.pt())).Count())", [pair]),
@@ -1312,6 +1329,12 @@ def c11_programs(backend):
             ("Select(EventDataset('ds'), lambda e: e.PRIM('A').Select(lambda j: j.getAttributeFloat('root://eos//calib.root')))", []),
             ("Select(EventDataset('ds'), lambda e: e.PRIM('A').Select(lambda j: j.getAttributeFloat('Width // raw') + j.getAttributeFloat('a; b')))", []),
             ("Select(EventDataset('ds'), lambda e: e.PRIM('A').Select(lambda j: j.getAttributeFloat('x /* y */ z')))", []),
+            # an actual argument whose TEXT spells a formal parameter / the method object of the supplied code: it is an argument,
+            # not a second occurrence of the formal (all substitutions are simultaneous)
+            ("Select(EventDataset('ds'), lambda e: e.PRIM('A').Select(lambda j: j.getAttributeFloat('obj_j')))", []),
+            ("Select(EventDataset('ds'), lambda e: e.PRIM('A').Select(lambda j: j.getAttributeFloat('moment_name') + j.getAttributeFloat('obj_j')))", []),
+            ("Select(EventDataset('ds'), lambda e: e.PRIM('A').Select(lambda j: j.getAttributeFloat('a obj_j b') - j.getAttributeFloat('result')))", []),
+            ("Select(EventDataset('ds'), lambda e: e.PRIM('A').Where(lambda j: j.getAttributeFloat('obj_j') > 0.5).Select(lambda k: k.getAttributeFloat('obj_j')))", []),
         ]
     for q, fns in qs:
         prog(q, fns, tags=("cppfn",))
